@@ -203,6 +203,8 @@ def c06() -> int:
         needs=["default:DispatchStation>Idle|default:DispatchStation>ChargingStation"])
     c.assumptions += ["speeds >= 10 km/h; links never declared shorter than the straight line; H3 resolution 15",
                       "journeys use a half-charged vehicle (the full-battery arrival is exercised in the FSX worlds)"]
+    # battery vehicles, a combustion vehicle, electric plugs and a gas pump: plugs a powertrain cannot use are in the menu
+    fsx(c, RES + ({"variant": "core", "gas": True, "mechs": ("thirsty", "tiny_thirsty", "ice"), "name": "W-res/energy"},), ("hivemc.bundles", "c06", {}), K=2, H=7 if quick else 9)
     auto_worlds(c, "c06", quick, grid=True)
     return c.finish()
 
